@@ -2099,6 +2099,12 @@ impl TextResource {
         operator: TextSelectionOperator,
         refset: TextSelectionSet,
     ) -> FindTextSelectionsIter<'store> {
+        //a reference set drawn from another resource stands in no relation to the text selections of
+        //this one (offsets and handles of two resources are not comparable): nothing is found
+        let foreign = self
+            .handle()
+            .map(|handle| handle != refset.resource())
+            .unwrap_or(false);
         FindTextSelectionsIter {
             resource: self,
             operator,
@@ -2106,7 +2112,7 @@ impl TextResource {
             textseliter_index: 0,
             textseliters: Vec::new(),
             buffer: VecDeque::new(),
-            drain_buffer: false,
+            drain_buffer: foreign,
         }
     }
 }
